@@ -6,6 +6,9 @@ import (
 	"encoding/hex"
 	"encoding/json"
 	"fmt"
+	tmproto "github.com/cometbft/cometbft/proto/tendermint/types"
+	ethtypes "github.com/ethereum/go-ethereum/core/types"
+	coinomicstypes "github.com/haqq-network/haqq/x/coinomics/types"
 	"math/big"
 	"math/rand"
 	"os"
@@ -94,6 +97,7 @@ type nodeWorld struct {
 	fresh       int
 	puppet      common.Address
 	bhProbe     common.Address // a contract that stores BLOCKHASH(calldata[0:32]) in slot 0
+	lastUnprot  []byte         // the bytes of the last unprotected (pre-EIP-155) Ethereum transaction built
 	nextProp    uint64
 	bigGas      bool
 	codeless    []common.Address
@@ -203,7 +207,18 @@ func newNodeWorld(seed int64) *nodeWorld {
 	}
 	evmGen := evmtypes.DefaultGenesisState()
 	evmGen.Params.ActivePrecompiles = without(evmtypes.AvailableEVMExtensions, nodeBech32Addr)
+	// one world in three starts with unprotected (pre-EIP-155) transactions allowed; governance switches that off later
+	evmGen.Params.AllowUnprotectedTxs = seed%3 == 1
 	gs[evmtypes.ModuleName] = cdc.MustMarshalJSON(evmGen)
+	if seed%5 == 0 {
+		// one world in five is about to reach the coinomics cap: a few blocks of minting are left
+		var bankGen banktypes.GenesisState
+		cdc.MustUnmarshalJSON(gs[banktypes.ModuleName], &bankGen)
+		var cg coinomicstypes.GenesisState
+		cdc.MustUnmarshalJSON(gs[coinomicstypes.ModuleName], &cg)
+		cg.MaxSupply = sdk.NewCoin(utils.BaseDenom, bankGen.Supply.AmountOf(utils.BaseDenom).Add(sdkmath.NewInt(1_200_000_000_000)))
+		gs[coinomicstypes.ModuleName] = cdc.MustMarshalJSON(&cg)
+	}
 	govGen := govv1.DefaultGenesisState()
 	vp := nodeVoting
 	govGen.Params.VotingPeriod = &vp
@@ -531,6 +546,52 @@ func (w *nodeWorld) buildTxs(a *app.Haqq, ctx sdk.Context, tok string) [][]byte 
 		w.nextProp++
 		tx1 := w.cosmosTx(a, ctx, 0, sub)
 		return [][]byte{tx1, nil, []byte(fmt.Sprintf("vote:%d", id))}
+	case "vests":
+		// funder k converts key j into a vesting account and has the vested part staked (stake=true) with the second validator
+		amt := mustBig(f[3])
+		half := new(big.Int).Div(amt, big.NewInt(2))
+		c3 := func(x *big.Int) sdk.Coins {
+			return sdk.NewCoins(sdk.NewCoin(utils.BaseDenom, sdkmath.NewIntFromBigInt(x)))
+		}
+		lock := sdkvesting.Periods{{Length: 200000, Amount: c3(amt)}}
+		vst := sdkvesting.Periods{{Length: 1, Amount: c3(half)}, {Length: 300000, Amount: c3(new(big.Int).Sub(amt, half))}}
+		msg := vestingtypes.NewMsgConvertIntoVestingAccount(w.acc(ki(1)), w.acc(ki(2)), ctx.BlockTime().Add(-10*time.Second), lock, vst, true, true, w.val2Addr)
+		return [][]byte{w.cosmosTx(a, ctx, ki(1), msg)}
+	case "unprot":
+		// an unprotected (Homestead-signed) Ethereum transaction whose nonce is ahead: it passes signature verification
+		// (while unprotected transactions are allowed) and fails on its nonce; the bytes are kept
+		to := w.freshAddr()
+		msg := evmtypes.NewTx(&evmtypes.EvmTxArgs{Nonce: a.EvmKeeper.GetNonce(ctx, w.eth(ki(1))) + 3, To: &to, Amount: big.NewInt(1), GasLimit: 100_000, GasPrice: nodeGasPrice.BigInt()})
+		msg.From = w.eth(ki(1)).String()
+		if err := msg.Sign(ethtypes.HomesteadSigner{}, utiltx.NewSigner(w.keys[ki(1)])); err != nil {
+			panic(err)
+		}
+		tx, err := utiltx.PrepareEthTx(w.txCfg, a, nil, msg)
+		if err != nil {
+			panic(err)
+		}
+		bz, err := w.txCfg.TxEncoder()(tx)
+		if err != nil {
+			panic(err)
+		}
+		w.lastUnprot = bz
+		return [][]byte{bz}
+	case "redeliver":
+		if w.lastUnprot == nil {
+			return nil
+		}
+		return [][]byte{w.lastUnprot}
+	case "govunprot":
+		p := a.EvmKeeper.GetParams(ctx)
+		p.AllowUnprotectedTxs = f[1] == "1"
+		upd := &evmtypes.MsgUpdateParams{Authority: authtypes.NewModuleAddress(govtypes.ModuleName).String(), Params: p}
+		sub, err := govv1.NewMsgSubmitProposal([]sdk.Msg{upd}, sdk.NewCoins(sdk.NewCoin(utils.BaseDenom, sdkmath.NewInt(1_000_000))), w.acc(0).String(), "", "unprot", "unprotected transactions")
+		if err != nil {
+			panic(err)
+		}
+		id := w.nextProp
+		w.nextProp++
+		return [][]byte{w.cosmosTx(a, ctx, 0, sub), nil, []byte(fmt.Sprintf("vote:%d", id))}
 	case "goverc20":
 		// governance switches the ERC20 module off (f[1] = 0) or on
 		p := a.Erc20Keeper.GetParams(ctx)
@@ -597,10 +658,18 @@ func nodeGen(r *rand.Rand, tier string, prop string) []Case {
 	}
 	var out []Case
 	for i := 0; i < n; i++ {
-		c := Case{fmt.Sprintf("world # seed=%d", r.Intn(1_000_000))}
+		wseed := r.Intn(1_000_000)
+		c := Case{fmt.Sprintf("world # seed=%d", wseed)}
 		c = append(c, "blk # dt=6 txs=deploy.0|eth.1.5|bhdeploy.1")
 		c = append(c, "blk # dt=6 txs=fundpup.0.1000000000000000|approve.1|approve.2|mdeleg.3.100000000000000000|mdeleg.1.100000000000000000|mdeleg.2.100000000000000000")
-		c = append(c, "blk # dt=6 txs=vest.4.5.9000000000000000000000|codeless.2|mdeleg2.1.300000000000000000|mdeleg2.3.200000000000000000")
+		c = append(c, "blk # dt=6 txs=vests.4.2.30000000000000000000|vest.4.5.9000000000000000000000|codeless.2|mdeleg2.1.300000000000000000|mdeleg2.3.200000000000000000")
+		if prop == "C19" && wseed%5 == 0 {
+			// the world that reaches the coinomics cap: exported after every one of the next blocks (one of them is the
+			// block in which minting switches itself off)
+			for b := 0; b < 8; b++ {
+				c = append(c, fmt.Sprintf("blk # dt=6 txs=send.%d.%d.%d", b%nodeKeys, (b+1)%nodeKeys, 1000+b), "export")
+			}
+		}
 		var liqTo []int
 		// one C19 world in three has no liquid denomination left at export: the only one is redeemed in full
 		noLiq := prop == "C19" && i%3 == 0
@@ -729,6 +798,17 @@ func nodeGen(r *rand.Rand, tier string, prop string) []Case {
 			if b == swapAt+1 && (prop == "C01" || prop == "C20") {
 				txs = append(txs, "govfail")
 			}
+			if wseed%3 == 1 && (prop == "C01" || prop == "C20") {
+				// the world that starts with unprotected transactions allowed
+				switch b {
+				case swapAt - 1, swapAt:
+					txs = append(txs, fmt.Sprintf("unprot.%d", 1+b%3))
+				case swapAt + 1:
+					txs = append(txs, "govunprot.0")
+				case swapAt + 5, swapAt + 6:
+					txs = append(txs, "redeliver")
+				}
+			}
 			if b == swapAt+1 && prop == "C15" && i%2 == 0 {
 				// half of the C15 worlds: governance switches the ERC20 module off
 				txs = append(txs, "goverc20.0")
@@ -796,6 +876,7 @@ func nodeGen(r *rand.Rand, tier string, prop string) []Case {
 		out = append(out, c)
 	}
 	if prop == "C01" {
+		out = append(out, Case{"feewalk"})
 		if tier == "thorough" {
 			out = append(out, Case{"upgrade175 # holders=400 runs=6"})
 		} else {
@@ -982,6 +1063,28 @@ func nodeExecHistory(c Case, afterBlock func(*nodeRun, int), atMark func(*nodeRu
 }
 
 func c01Exec(c Case) (outs []string, fails []Failure, tags []string) {
+	if len(c) == 1 && strings.HasPrefix(c[0], "feewalk") {
+		// the per-block arithmetic that runs on every node in every block (base fee update) at its corners — tiny base
+		// fees, steps that round to zero, blocks above and below the target; whether a shared constant was written
+		// through is judged after the case (process-global-constant-overwritten)
+		nw, _ := fixture()
+		k := nw.App.FeeMarketKeeper
+		for _, bf := range []int64{0, 1, 7, 8, 1_000_000_000} {
+			for _, g := range []uint64{0, 99_999, 100_000, 100_001, 150_000, 400_000} {
+				ctx, _ := nw.GetContext().CacheContext()
+				p := k.GetParams(ctx)
+				p.NoBaseFee, p.EnableHeight, p.BaseFee = false, 0, sdkmath.NewInt(bf)
+				p.ElasticityMultiplier, p.BaseFeeChangeDenominator, p.MinGasPrice = 2, 8, sdk.ZeroDec()
+				if err := k.SetParams(ctx, p); err != nil {
+					panic(err)
+				}
+				ctx = ctx.WithBlockHeight(10).WithConsensusParams(&tmproto.ConsensusParams{Block: &tmproto.BlockParams{MaxGas: 200_000, MaxBytes: 10}})
+				k.SetBlockGasWanted(ctx, g)
+				_ = k.CalculateBaseFee(ctx)
+			}
+		}
+		return []string{"ok"}, nil, []string{"fee-arithmetic-walk", "replica-compared", "tx:pup"}
+	}
 	if len(c) == 1 && strings.HasPrefix(c[0], "upgrade175") {
 		// the v1.7.5 upgrade handler (goroutine workers) on several forks of one state: the outcome must not depend on scheduling
 		kv := vmKV(strings.Fields(c[0]))
@@ -1084,9 +1187,16 @@ func c15Exec(c Case) (outs []string, fails []Failure, tags []string) {
 		header := testutil.NewHeader(b.height, b.time, nodeChainID, run.w.proposer, run.a.LastCommitID().Hash, run.w.valSet.Hash())
 		ctx := run.a.BaseApp.NewContext(true, header)
 		for _, r := range run.a.CrisisKeeper.Routes() {
-			if msg, bad := r.Invar(ctx); bad {
-				broken = append(broken, fmt.Sprintf("after block %d (op line %d) invariant %s is broken: %s", b.height, i, r.FullRoute(), strings.TrimSpace(msg)))
-			}
+			func() {
+				defer func() {
+					if p := recover(); p != nil {
+						broken = append(broken, fmt.Sprintf("after block %d (op line %d) invariant %s cannot be evaluated, it panics: %v", b.height, i, r.FullRoute(), p))
+					}
+				}()
+				if msg, bad := r.Invar(ctx); bad {
+					broken = append(broken, fmt.Sprintf("after block %d (op line %d) invariant %s is broken: %s", b.height, i, r.FullRoute(), strings.TrimSpace(msg)))
+				}
+			}()
 		}
 	}
 	_, outs, tags = nodeExecHistory(c, after, nil)
@@ -1156,6 +1266,15 @@ func c19Exec(c Case) (outs []string, fails []Failure, tags []string) {
 			tags = append(tags, "store-compared:"+name)
 			h1 := testutil.NewHeader(run.a.LastBlockHeight(), last, nodeChainID, run.w.proposer, nil, nil)
 			m1, m2 := nodeStoreMap(run.a.BaseApp.NewContext(true, h1), k1), nodeStoreMap(b.BaseApp.NewContext(true, h1), k2)
+			if name == "coinomics" {
+				// PrevBlockTS: the getter reads an absent key as 0, the end-blocker stores "0" when minting is off and the
+				// import writes positive values only — a stored zero and an absent key are the same state
+				for _, m := range []map[string]string{m1, m2} {
+					if m["\x01"] == "0" {
+						delete(m, "\x01")
+					}
+				}
+			}
 			n := 0
 			for k, v := range m1 {
 				if v2, ok := m2[k]; !ok || v2 != v {
